@@ -12,6 +12,7 @@
 From Coq Require Import ZArith List Bool Reals Lra.
 From Coquelicot Require Import Coquelicot.
 From MJV Require Import Lib.Num Lib.NumR Model.Spatial Proof.SpatialProof Model.Kinematics Proof.KinematicsProof.
+From MJV Require Import Model.EqPoly Proof.EqPolyProof.
 Open Scope R_scope.
 
 (* ---- frames, no hypothesis on the inputs: whenever the recursion returns (no mjERROR), one frame per body
@@ -129,6 +130,21 @@ Theorem C07_tree_body_is_chain :
         Some (xpos, xquat).
 Proof. exact tree_body_chain. Qed.
 Print Assumptions C07_tree_body_is_chain.
+
+(* ---- constraint rows of joint / tendon equalities with a coupling polynomial (mj_instantiateEquality, both objects
+   defined): efc_pos = pos0 - ref0 - c0 - (c1 dif + c2 dif^2 + c3 dif^3 + c4 dif^4), dif = pos1 - ref1, and the row
+   jac0 - deriv * jac1 with deriv = c1 + 2 c2 dif + 3 c3 dif^2 + 4 c4 dif^3.  Whenever the two object positions depend
+   on a coordinate with derivatives given by entry k of their Jacobian rows, entry k of the written row is the
+   derivative of the constraint position along that coordinate (all coefficients, all sizes).  That the object rows
+   themselves (unit vector / ten_J) are the derivatives of qpos / ten_length is not part of this theorem (oracle). *)
+Theorem C07_eq_poly_row :
+  forall (c0 c1 c2 c3 c4 ref0 ref1 : R) (jac0 jac1 : list R) (k : nat) (f0 f1 : R -> R) (x : R),
+    length jac1 = length jac0 ->
+    is_derive f0 x (nth k jac0 0) -> is_derive f1 x (nth k jac1 0) ->
+    is_derive (fun t : R => eqPos c0 c1 c2 c3 c4 (f0 t) ref0 (f1 t) ref1) x
+              (nth k (eqRow jac0 jac1 (eqDeriv c1 c2 c3 c4 (f1 x) ref1)) 0).
+Proof. exact eq_poly_row. Qed.
+Print Assumptions C07_eq_poly_row.
 
 (* ---- the hypotheses are satisfiable by non-trivial data *)
 Example C07_goodQV_example :
